@@ -11,6 +11,7 @@
 import PsutilModel.Proofs.C09Disk
 import PsutilModel.Proofs.C09Sysfs
 import PsutilModel.Proofs.C09Usage
+import PsutilModel.Proofs.C09Order
 namespace Psutil.C09
 open Spec
 
@@ -649,6 +650,110 @@ theorem C09_usage_within_total (st : StatVfs) (h : st.bavail ≤ st.bfree) :
 
 /-- rounding to one decimal moves the percentage by at most 0.05 -/
 theorem C09_usage_round1_close (q : Rat) : |round1 q - q| ≤ 1 / 20 := round1_close q
+
+/-! ## /sys/block in any listing order -/
+
+theorem sysfs_with_any_order (nr : Option (Nat × Nat)) (hn : NameOk nr) (disks : List SysDisk) (wf : SysWF disks)
+    (tree : List SysDir) (hl : SysListing tree disks) (perdisk : Bool) :
+    ∃ devs' : List Dev, devs'.Perm (namedBy nr (sysDevs disks)) ∧
+      diskIoCountersWith (sysfsCfgWith nr) ⟨none, some tree⟩ perdisk = (expectDisk perdisk devs').toOut := by
+  obtain ⟨devs', hp, he⟩ := sysfsPlatform_any_order nr hn disks wf tree hl perdisk
+  refine ⟨devs', hp, ?_⟩
+  unfold diskIoCountersWith
+  rw [he, frontEnd_disk]
+  cases expectDisk perdisk devs' <;> rfl
+
+/-- **sysfs, any listing order, code as it is**: whatever order `os.listdir('/sys/block')` and the
+    `os.walk`s below it list the entries in (disks, partition and attribute directories interleaved,
+    files), the answer is the promised one as a `dict` (same keys, same values) -/
+theorem C09_sysfs_any_order (disks : List SysDisk) (wf : SysWF disks) (hbang : ∀ d ∈ sysDevs disks, 33 ∉ d.name)
+    (tree : List SysDir) (hl : SysListing tree disks) (perdisk : Bool) :
+    ∃ e : Expect, diskIoCountersW ⟨none, some tree⟩ perdisk = e.toOut ∧ e.same (expectSysfs perdisk disks) := by
+  obtain ⟨devs', hp, he⟩ := sysfs_with_any_order sysfsCfg.nameReplace (nameOk_of _ C09_sysfs_name_cfg) disks wf tree hl perdisk
+  refine ⟨expectDisk perdisk devs', he, ?_⟩
+  rw [cfg_sysfs_unbang, namedBy_unbang _ hbang] at hp
+  exact expectDisk_perm perdisk _ _ hp
+
+/-- … and the system-wide total is literally the same value: the sum over the whole disks, each once -/
+theorem C09_sysfs_total_any_order (disks : List SysDisk) (wf : SysWF disks) (tree : List SysDir)
+    (hl : SysListing tree disks) :
+    diskIoCountersW ⟨none, some tree⟩ false = diskIoCountersW ⟨none, some (renderSysfs disks)⟩ false := by
+  obtain ⟨devs', hp, he⟩ := sysfs_with_any_order sysfsCfg.nameReplace (nameOk_of _ C09_sysfs_name_cfg) disks wf tree hl false
+  have h1 : diskIoCountersW ⟨none, some tree⟩ false = (expectDisk false devs').toOut := he
+  rw [h1, C09_sysfs_as_generated disks wf false, expectDisk_total_perm _ _ hp]
+
+/-- the canonical rendering is one of the listings (the hypothesis is satisfiable), and so is the same
+    state with the two disks, the `stat` file and the sub-directories listed the other way round -/
+theorem C09_sysfs_listing_examples (disks : List SysDisk) :
+    SysListing (renderSysfs disks) disks ∧
+    SysListing
+      [.node [115, 100, 98] [(statName, renderStat ⟨1, 2, 3, 4, 5, 6, 7, 8, 9, 10, 11⟩ [])] [],
+       .node [115, 100, 97] [(statName, renderStat ⟨1, 2, 3, 4, 5, 6, 7, 8, 9, 10, 11⟩ []), ([100, 101, 118], [56])]
+         [.node [113] [] [], .node [115, 100, 97, 49] [(statName, renderStat ⟨1, 2, 3, 4, 5, 6, 7, 8, 9, 10, 11⟩ [])] []]]
+      [⟨8, 0, [115, 100, 97], ⟨1, 2, 3, 4, 5, 6, 7, 8, 9, 10, 11⟩, [], [([100, 101, 118], [56])], [.node [113] [] []],
+         [⟨1, [115, 100, 97, 49], ⟨1, 2, 3, 4, 5, 6, 7, 8, 9, 10, 11⟩, [], [], []⟩]⟩,
+       ⟨8, 16, [115, 100, 98], ⟨1, 2, 3, 4, 5, 6, 7, 8, 9, 10, 11⟩, [], [], [], []⟩] := by
+  refine ⟨sysListing_render disks, ?_⟩
+  refine ⟨_, .cons _ _ _ _ _ _ ?_ (.cons _ _ _ _ _ (List.Perm.refl _) (List.Perm.refl _) .nil) ?_
+    (.cons _ _ _ [] _ _ (List.Perm.refl _) .nil (List.Perm.refl _) .nil), List.Perm.swap _ _ _⟩
+  · exact List.Perm.swap _ _ _
+  · exact List.Perm.swap _ _ _
+
+/-! ## disk_usage: units -/
+
+/-- **which unit each count is in**: all three block counts of `statvfs` (`f_blocks`, `f_bfree`, `f_bavail`)
+    are multiplied by the fragment size `f_frsize`; in bytes: total = blocks·frsize,
+    used = (blocks − bfree)·frsize, free = bavail·frsize -/
+theorem C09_disk_usage_units (st : StatVfs) :
+    ∃ u, diskUsage usageCfg (envOf st) = some u ∧
+      u.total = (st.blocks : Int) * st.frsize ∧ u.used = ((st.blocks : Int) - st.bfree) * st.frsize ∧
+      u.free = (st.bavail : Int) * st.frsize := by
+  refine ⟨_, C09_disk_usage st, rfl, ?_, rfl⟩
+  simp only [usage]
+  rw [Int.sub_mul]
+
+/-- … and the preferred I/O block size `f_bsize` (or any other field of the record) plays no role -/
+theorem C09_disk_usage_ignores_bsize (st : StatVfs) (b files ffree favail flag namemax : Nat) :
+    diskUsage usageCfg (envOf { st with bsize := b, files := files, ffree := ffree, favail := favail,
+                                        flag := flag, namemax := namemax })
+      = diskUsage usageCfg (envOf st) := by
+  rw [C09_disk_usage, C09_disk_usage]
+  rfl
+
+/-- why the unit matters (seeded change C09-3): with the free counts scaled by `f_bsize` instead, a
+    file system of 100 fragments of 512 B, 50 of them free, with a 4096 B preferred block size would
+    report used = 51200 − 204800 < 0 -/
+theorem C09_disk_usage_bsize_counterexample :
+    (diskUsage { usageCfg with assigns := usageCfg.assigns.map fun a =>
+                  if a.lhs = "st.f_bfree" ∨ a.lhs = "st.f_bavail" then { a with rhs := "st.f_bsize" } else a }
+        (envOf ⟨4096, 512, 100, 50, 40, 0, 0, 0, 0, 0⟩)).map (fun u => (u.total, u.used, u.free))
+      = some (51200, -153600, 163840) ∧
+    (diskUsage usageCfg (envOf ⟨4096, 512, 100, 50, 40, 0, 0, 0, 0, 0⟩)).map (fun u => (u.total, u.used, u.free))
+      = some (51200, 25600, 20480) := by
+  constructor <;> decide
+
+/-- the call as a whole: an `OSError` of `os.statvfs` (ENOENT, EACCES, EIO …) reaches the caller with
+    its errno; otherwise the record is turned into the documented values -/
+theorem C09_disk_usage_call (e : Nat) (st : StatVfs) :
+    diskUsageCall usageCfg (.error e) = .raised e ∧
+    diskUsageCall usageCfg (.ok (envOf st))
+      = .value (some { total := (usage st).total, used := (usage st).used, free := (usage st).free,
+                       percentExact := (usage st).percent, roundDigits := 1 }) :=
+  ⟨rfl, by rw [diskUsageCall, C09_disk_usage]⟩
+
+/-! ## translator-fed obligations of the second extension round -/
+
+/-- `assert colon > 0`: the model's `netLine` raises AssertionError exactly for "no colon" and "colon at
+    index 0" — the fact says the smallest accepted index is 1 -/
+theorem C09_net_colon_assert :
+    Gen.C09.netMinColon = 1 ∧ netLine netCfg [58, 32, 49] = .err .assertionError ∧
+    netLine netCfg [32, 49] = .err .assertionError ∧
+    -- index 1 passes the assertion (and then fails for having one value instead of sixteen)
+    netLine netCfg [97, 58, 32, 49] = .err .valueError :=
+  ⟨by decide, by rfl, by rfl, by rfl⟩
+
+/-- a call without `perdisk` / `pernic` asks for the system-wide form (`C09_net … false`, `C09_disk … false`) -/
+theorem C09_front_defaults : Gen.C09.frontPerDefault = ["False", "False"] := by decide
 
 /-! ## the hypotheses are satisfiable -/
 
